@@ -37,21 +37,25 @@ func init() {
 	}
 	// line-at-a-time driver: in continuation mode a non-empty line is only buffered; an empty line (or any line outside continuation mode) compiles buffer+line; an incomplete-input error buffers the line and enters continuation mode; any other outcome leaves continuation mode and clears the buffer before reporting or running  []
 	pathSpec["repl|REPL.Run"] = []string{
-		"[!(len(stripped) > 0 && stripped[0] == '#') && !(r.continuation) && !(strings.Contains(errText, \"unexpected EOF while parsing\")) && err != nil && strings.Contains(errText, \"EOF while scanning triple-quoted string literal\") && toCompile != \"\"] vm.PrintExpr = r.term.Print; defer(func() { vm.PrintExpr = oldPrintExpr }()); Compile(toCompile + \"\\n\", r.prog, py.SingleMode, 0, true); r.continuation = true; r.previous += string(line) + \"\\n\"; r.term.SetPrompt(ContinuationPrompt) -> nil",
-		"[!(len(stripped) > 0 && stripped[0] == '#') && !(r.continuation) && err != nil && strings.Contains(errText, \"unexpected EOF while parsing\") && toCompile != \"\"] vm.PrintExpr = r.term.Print; defer(func() { vm.PrintExpr = oldPrintExpr }()); Compile(toCompile + \"\\n\", r.prog, py.SingleMode, 0, true); r.continuation = true; r.previous += string(line) + \"\\n\"; r.term.SetPrompt(ContinuationPrompt) -> nil",
-		"[!(len(stripped) > 0 && stripped[0] == '#') && !(strings.Contains(errText, \"unexpected EOF while parsing\")) && err != nil && line == \"\" && r.continuation && strings.Contains(errText, \"EOF while scanning triple-quoted string literal\") && toCompile != \"\"] vm.PrintExpr = r.term.Print; defer(func() { vm.PrintExpr = oldPrintExpr }()); Compile(toCompile + \"\\n\", r.prog, py.SingleMode, 0, true); r.continuation = true; r.previous += string(line) + \"\\n\"; r.term.SetPrompt(ContinuationPrompt) -> nil",
-		"[!(len(stripped) > 0 && stripped[0] == '#') && err != nil && line == \"\" && r.continuation && strings.Contains(errText, \"unexpected EOF while parsing\") && toCompile != \"\"] vm.PrintExpr = r.term.Print; defer(func() { vm.PrintExpr = oldPrintExpr }()); Compile(toCompile + \"\\n\", r.prog, py.SingleMode, 0, true); r.continuation = true; r.previous += string(line) + \"\\n\"; r.term.SetPrompt(ContinuationPrompt) -> nil",
 		"[!(py.IsException(py.SystemExit, err)) && !(r.continuation) && err == nil && toCompile != \"\"] vm.PrintExpr = r.term.Print; defer(func() { vm.PrintExpr = oldPrintExpr }()); Compile(toCompile + \"\\n\", r.prog, py.SingleMode, 0, true); r.continuation = false; r.term.SetPrompt(NormalPrompt); r.previous = \"\"; r.Context.RunCode(dyn:py.Compile#0, r.Module.Globals, r.Module.Globals, nil); TracebackDump(err!) -> nil",
 		"[!(py.IsException(py.SystemExit, err)) && err == nil && line == \"\" && r.continuation && toCompile != \"\"] vm.PrintExpr = r.term.Print; defer(func() { vm.PrintExpr = oldPrintExpr }()); Compile(toCompile + \"\\n\", r.prog, py.SingleMode, 0, true); r.continuation = false; r.term.SetPrompt(NormalPrompt); r.previous = \"\"; r.Context.RunCode(dyn:py.Compile#0, r.Module.Globals, r.Module.Globals, nil); TracebackDump(err!) -> nil",
 		"[!(r.continuation) && !(strings.Contains(errText, \"EOF while scanning triple-quoted string literal\")) && !(strings.Contains(errText, \"unexpected EOF while parsing\")) && err != nil && toCompile != \"\"] vm.PrintExpr = r.term.Print; defer(func() { vm.PrintExpr = oldPrintExpr }()); Compile(toCompile + \"\\n\", r.prog, py.SingleMode, 0, true); r.continuation = false; r.term.SetPrompt(NormalPrompt); r.previous = \"\"; r.term.Print(fmt.Sprintf#0) -> nil",
-		"[!(r.continuation) && !(strings.Contains(errText, \"unexpected EOF while parsing\")) && err != nil && len(stripped) > 0 && stripped[0] == '#' && strings.Contains(errText, \"EOF while scanning triple-quoted string literal\") && toCompile != \"\"] vm.PrintExpr = r.term.Print; defer(func() { vm.PrintExpr = oldPrintExpr }()); Compile(toCompile + \"\\n\", r.prog, py.SingleMode, 0, true) -> nil",
-		"[!(r.continuation) && err != nil && len(stripped) > 0 && stripped[0] == '#' && strings.Contains(errText, \"unexpected EOF while parsing\") && toCompile != \"\"] vm.PrintExpr = r.term.Print; defer(func() { vm.PrintExpr = oldPrintExpr }()); Compile(toCompile + \"\\n\", r.prog, py.SingleMode, 0, true) -> nil",
+		"[!(r.continuation) && !(strings.Contains(errText, \"unexpected EOF while parsing\")) && err != nil && len(strings.TrimSpace#0) != 0 && strings.Contains(errText, \"EOF while scanning triple-quoted string literal\") && strings.TrimSpace#0[0] != 35 && toCompile != \"\"] vm.PrintExpr = r.term.Print; defer(func() { vm.PrintExpr = oldPrintExpr }()); Compile(toCompile + \"\\n\", r.prog, py.SingleMode, 0, true); r.continuation = true; r.previous += string(line) + \"\\n\"; r.term.SetPrompt(ContinuationPrompt) -> nil",
+		"[!(r.continuation) && !(strings.Contains(errText, \"unexpected EOF while parsing\")) && err != nil && len(strings.TrimSpace#0) != 0 && strings.Contains(errText, \"EOF while scanning triple-quoted string literal\") && strings.TrimSpace#0[0] == 35 && toCompile != \"\"] vm.PrintExpr = r.term.Print; defer(func() { vm.PrintExpr = oldPrintExpr }()); Compile(toCompile + \"\\n\", r.prog, py.SingleMode, 0, true) -> nil",
+		"[!(r.continuation) && !(strings.Contains(errText, \"unexpected EOF while parsing\")) && err != nil && len(strings.TrimSpace#0) == 0 && strings.Contains(errText, \"EOF while scanning triple-quoted string literal\") && toCompile != \"\"] vm.PrintExpr = r.term.Print; defer(func() { vm.PrintExpr = oldPrintExpr }()); Compile(toCompile + \"\\n\", r.prog, py.SingleMode, 0, true); r.continuation = true; r.previous += string(line) + \"\\n\"; r.term.SetPrompt(ContinuationPrompt) -> nil",
+		"[!(r.continuation) && err != nil && len(strings.TrimSpace#0) != 0 && strings.Contains(errText, \"unexpected EOF while parsing\") && strings.TrimSpace#0[0] != 35 && toCompile != \"\"] vm.PrintExpr = r.term.Print; defer(func() { vm.PrintExpr = oldPrintExpr }()); Compile(toCompile + \"\\n\", r.prog, py.SingleMode, 0, true); r.continuation = true; r.previous += string(line) + \"\\n\"; r.term.SetPrompt(ContinuationPrompt) -> nil",
+		"[!(r.continuation) && err != nil && len(strings.TrimSpace#0) != 0 && strings.Contains(errText, \"unexpected EOF while parsing\") && strings.TrimSpace#0[0] == 35 && toCompile != \"\"] vm.PrintExpr = r.term.Print; defer(func() { vm.PrintExpr = oldPrintExpr }()); Compile(toCompile + \"\\n\", r.prog, py.SingleMode, 0, true) -> nil",
+		"[!(r.continuation) && err != nil && len(strings.TrimSpace#0) == 0 && strings.Contains(errText, \"unexpected EOF while parsing\") && toCompile != \"\"] vm.PrintExpr = r.term.Print; defer(func() { vm.PrintExpr = oldPrintExpr }()); Compile(toCompile + \"\\n\", r.prog, py.SingleMode, 0, true); r.continuation = true; r.previous += string(line) + \"\\n\"; r.term.SetPrompt(ContinuationPrompt) -> nil",
 		"[!(r.continuation) && err == nil && py.IsException(py.SystemExit, err) && toCompile != \"\"] vm.PrintExpr = r.term.Print; defer(func() { vm.PrintExpr = oldPrintExpr }()); Compile(toCompile + \"\\n\", r.prog, py.SingleMode, 0, true); r.continuation = false; r.term.SetPrompt(NormalPrompt); r.previous = \"\"; r.Context.RunCode(dyn:py.Compile#0, r.Module.Globals, r.Module.Globals, nil) -> err!",
 		"[!(r.continuation) && err == nil && toCompile != \"\"] vm.PrintExpr = r.term.Print; defer(func() { vm.PrintExpr = oldPrintExpr }()); Compile(toCompile + \"\\n\", r.prog, py.SingleMode, 0, true); r.continuation = false; r.term.SetPrompt(NormalPrompt); r.previous = \"\"; r.Context.RunCode(dyn:py.Compile#0, r.Module.Globals, r.Module.Globals, nil) -> nil",
 		"[!(r.continuation) && toCompile == \"\"] vm.PrintExpr = r.term.Print; defer(func() { vm.PrintExpr = oldPrintExpr }()) -> nil",
 		"[!(strings.Contains(errText, \"EOF while scanning triple-quoted string literal\")) && !(strings.Contains(errText, \"unexpected EOF while parsing\")) && err != nil && line == \"\" && r.continuation && toCompile != \"\"] vm.PrintExpr = r.term.Print; defer(func() { vm.PrintExpr = oldPrintExpr }()); Compile(toCompile + \"\\n\", r.prog, py.SingleMode, 0, true); r.continuation = false; r.term.SetPrompt(NormalPrompt); r.previous = \"\"; r.term.Print(fmt.Sprintf#0) -> nil",
-		"[!(strings.Contains(errText, \"unexpected EOF while parsing\")) && err != nil && len(stripped) > 0 && stripped[0] == '#' && line == \"\" && r.continuation && strings.Contains(errText, \"EOF while scanning triple-quoted string literal\") && toCompile != \"\"] vm.PrintExpr = r.term.Print; defer(func() { vm.PrintExpr = oldPrintExpr }()); Compile(toCompile + \"\\n\", r.prog, py.SingleMode, 0, true) -> nil",
-		"[err != nil && len(stripped) > 0 && stripped[0] == '#' && line == \"\" && r.continuation && strings.Contains(errText, \"unexpected EOF while parsing\") && toCompile != \"\"] vm.PrintExpr = r.term.Print; defer(func() { vm.PrintExpr = oldPrintExpr }()); Compile(toCompile + \"\\n\", r.prog, py.SingleMode, 0, true) -> nil",
+		"[!(strings.Contains(errText, \"unexpected EOF while parsing\")) && err != nil && len(strings.TrimSpace#0) != 0 && line == \"\" && r.continuation && strings.Contains(errText, \"EOF while scanning triple-quoted string literal\") && strings.TrimSpace#0[0] != 35 && toCompile != \"\"] vm.PrintExpr = r.term.Print; defer(func() { vm.PrintExpr = oldPrintExpr }()); Compile(toCompile + \"\\n\", r.prog, py.SingleMode, 0, true); r.continuation = true; r.previous += string(line) + \"\\n\"; r.term.SetPrompt(ContinuationPrompt) -> nil",
+		"[!(strings.Contains(errText, \"unexpected EOF while parsing\")) && err != nil && len(strings.TrimSpace#0) != 0 && line == \"\" && r.continuation && strings.Contains(errText, \"EOF while scanning triple-quoted string literal\") && strings.TrimSpace#0[0] == 35 && toCompile != \"\"] vm.PrintExpr = r.term.Print; defer(func() { vm.PrintExpr = oldPrintExpr }()); Compile(toCompile + \"\\n\", r.prog, py.SingleMode, 0, true) -> nil",
+		"[!(strings.Contains(errText, \"unexpected EOF while parsing\")) && err != nil && len(strings.TrimSpace#0) == 0 && line == \"\" && r.continuation && strings.Contains(errText, \"EOF while scanning triple-quoted string literal\") && toCompile != \"\"] vm.PrintExpr = r.term.Print; defer(func() { vm.PrintExpr = oldPrintExpr }()); Compile(toCompile + \"\\n\", r.prog, py.SingleMode, 0, true); r.continuation = true; r.previous += string(line) + \"\\n\"; r.term.SetPrompt(ContinuationPrompt) -> nil",
+		"[err != nil && len(strings.TrimSpace#0) != 0 && line == \"\" && r.continuation && strings.Contains(errText, \"unexpected EOF while parsing\") && strings.TrimSpace#0[0] != 35 && toCompile != \"\"] vm.PrintExpr = r.term.Print; defer(func() { vm.PrintExpr = oldPrintExpr }()); Compile(toCompile + \"\\n\", r.prog, py.SingleMode, 0, true); r.continuation = true; r.previous += string(line) + \"\\n\"; r.term.SetPrompt(ContinuationPrompt) -> nil",
+		"[err != nil && len(strings.TrimSpace#0) != 0 && line == \"\" && r.continuation && strings.Contains(errText, \"unexpected EOF while parsing\") && strings.TrimSpace#0[0] == 35 && toCompile != \"\"] vm.PrintExpr = r.term.Print; defer(func() { vm.PrintExpr = oldPrintExpr }()); Compile(toCompile + \"\\n\", r.prog, py.SingleMode, 0, true) -> nil",
+		"[err != nil && len(strings.TrimSpace#0) == 0 && line == \"\" && r.continuation && strings.Contains(errText, \"unexpected EOF while parsing\") && toCompile != \"\"] vm.PrintExpr = r.term.Print; defer(func() { vm.PrintExpr = oldPrintExpr }()); Compile(toCompile + \"\\n\", r.prog, py.SingleMode, 0, true); r.continuation = true; r.previous += string(line) + \"\\n\"; r.term.SetPrompt(ContinuationPrompt) -> nil",
 		"[err == nil && line == \"\" && py.IsException(py.SystemExit, err) && r.continuation && toCompile != \"\"] vm.PrintExpr = r.term.Print; defer(func() { vm.PrintExpr = oldPrintExpr }()); Compile(toCompile + \"\\n\", r.prog, py.SingleMode, 0, true); r.continuation = false; r.term.SetPrompt(NormalPrompt); r.previous = \"\"; r.Context.RunCode(dyn:py.Compile#0, r.Module.Globals, r.Module.Globals, nil) -> err!",
 		"[err == nil && line == \"\" && r.continuation && toCompile != \"\"] vm.PrintExpr = r.term.Print; defer(func() { vm.PrintExpr = oldPrintExpr }()); Compile(toCompile + \"\\n\", r.prog, py.SingleMode, 0, true); r.continuation = false; r.term.SetPrompt(NormalPrompt); r.previous = \"\"; r.Context.RunCode(dyn:py.Compile#0, r.Module.Globals, r.Module.Globals, nil) -> nil",
 		"[line != \"\" && r.continuation] vm.PrintExpr = r.term.Print; defer(func() { vm.PrintExpr = oldPrintExpr }()); r.previous += string(line) + \"\\n\" -> nil",
